@@ -15,13 +15,6 @@ Fixpoint pv_to_gval (v : pv) : gval :=
                             match l with [] => [] | (k, x) :: r => (KStr k, pv_to_gval x) :: go r end) m)
   end.
 
-(* strings.SplitN(arg, "=", 2) *)
-Fixpoint split_eq (s acc : string) : string * option string :=
-  match s with
-  | EmptyString => (srev acc, None)
-  | String a r => if Ascii.eqb a "="%char then (srev acc, Some r) else split_eq r (String a acc)
-  end.
-
 Record fstate := { f_cfg : value; f_err : obs }.     (* f_err = OV VNil when no error yet *)
 
 Definition no_err (e : obs) : bool := match e with OV VNil => true | _ => false end.
